@@ -147,6 +147,7 @@ func workerRun(p *Program, job *Job) {
 		}
 		send(Msg{T: "start", I: i})
 		env.Stats.Evaluations++
+		apiSeq = 0
 		vs := chk.Eval(env, c)
 		last = i
 		if h := hasher.note(i, c, vs); job.DumpLog {
@@ -197,6 +198,7 @@ func workerReplay(p *Program, job *Job) {
 	}
 	env := &Env{Prog: p, Stats: NewStats(), Tier: "quick"}
 	send(Msg{T: "start", I: rp.Case.Idx})
+	apiSeq = 0
 	vs := chk.Eval(env, rp.Case)
 	repro := false
 	text := ""
